@@ -313,9 +313,9 @@ func genFreeList(r *vh.Rng, th bool, kindName string) []Case {
 	ds := []int{2, 3}
 	ml := 2
 	if th {
-		ml = 5
+		ml = 4
 		if kindName == "dhcp4pool" {
-			ml = 4
+			ml = 3
 		}
 	}
 	if kindName == "v6prefix" {
@@ -347,7 +347,7 @@ func genFreeList(r *vh.Rng, th bool, kindName string) []Case {
 	}
 	nl := 30
 	if th {
-		nl = 1200
+		nl = 400
 	}
 	for i := 0; i < nl; i++ {
 		rr := r.Fork()
